@@ -567,10 +567,6 @@ pub fn check_global_indices(out: &mut Out, op: &str, tab: &[(i128, u32)], me: (u
 /// with fields (yz, xz), reference (ra, rb)/2^32 degrees, result `r`
 #[allow(clippy::too_many_arguments)]
 pub fn check_local_indices(out: &mut Out, op: &str, tab: &[(i128, u32)], surf: bool, p: u32, yz: u32, xz: u32, ra: i64, rb: i64, r: &Option<Position>) {
-    let Some(pos) = r else {
-        out.stat("zone-index:local:none");
-        return;
-    };
     let full: i128 = if surf { 90 } else { 360 };
     let n = (60 - p) as i128;
     let (p17, u) = (131072i128, UNIT as i128);
@@ -587,6 +583,23 @@ pub fn check_local_indices(out: &mut Out, op: &str, tab: &[(i128, u32)], surf: b
     };
     let (j, near_j) = floor_arg(ra, n, yz, p == 0);
     let ff = full as f64;
+    let Some(pos) = r else {
+        // the refusal, in integer arithmetic: with j = floor(1/2 + ref/d - cpr) the latitude is within half a zone
+        // of the reference (Props/C05 `local_near_ref`), and so is the longitude; `None` is right only when the
+        // latitude leaves [-90, 90] — or on a boundary (a tie, an argument within 1e-11 of an integer, ...)
+        let (ln, ld) = (full * (j * p17 + yz as i128), n * p17);
+        let nl = nl_spec(tab, ln, ld) as i128;
+        let ni = std::cmp::max(nl - p as i128, 1);
+        let (_, near_m) = floor_arg(rb, ni, xz, false);
+        if ln.abs() > 90 * ld {
+            out.stat("zone-index:local:none-out-of-range");
+        } else if near_j || near_m || lat_near_boundary(tab, ln, ld) {
+            out.stat("zone-index:local:boundary");
+        } else {
+            out.fail("zone-decision", op, &format!("integer arithmetic: j={j}, latitude {ln}/{ld} in [-90, 90], nl={nl}, no tie: a position within half a zone of the reference exists; the f64 code returned None"));
+        }
+        return;
+    };
     match zone_of(pos.latitude, n as f64, ff, yz) {
         Some(z) if z as i128 == j => out.stat("zone-index:local:j-ok"),
         z => {
